@@ -68,6 +68,8 @@ def spec_outcome(res):
     """RES record -> comparable outcome."""
     r = res['r']
     o = {'k': r['k'], 'pos': r['pos'], 'unspec': bool(res.get('u')), 'lr': bool(res.get('lr'))}
+    if res.get('ua'):
+        o['k'] = 'fuel'         # acceptance itself is left open by the documents for this grammar (PegGrammar!UnspecifiedAcceptance): no verdict
     if r['k'] == 'ok':
         o['v'] = unval(r['v'])
     return o
@@ -177,3 +179,66 @@ def conformance(ck, items, check_value=True, check_pos=True, timeout=3000, class
                          key=c['ebnf'] + why.split(':')[0] + backend)
     ck.cov['distinct_nontrivial'] += len(seen)
     return mism
+
+
+def read_marks_case(case):
+    """compile the grammar texts and read back the left-recursion marks the code computed (Rule.is_lrec / is_memo)"""
+    import tatsu
+    from .impl import clear_caches
+    out = []
+    for ebnf in case['ebnfs']:
+        clear_caches()
+        try:
+            m = tatsu.compile(ebnf)
+            out.append({r.name: [bool(r.is_lrec), bool(r.is_memo and not r.no_memo)] for r in m.rules})
+        except Exception as e:  # noqa: BLE001
+            out.append({'__error__': f'{type(e).__name__}: {e}'[:120]})
+    return out
+
+
+def with_marks(grammars):
+    """-> the same abstract grammars with lrec/memo set to the marks of the real analysis"""
+    import copy
+    ebnfs = [to_ebnf(g) for g in grammars]
+    res = [x for ch in pmap(read_marks_case, [{'ebnfs': ebnfs[i:i + 30]} for i in range(0, len(ebnfs), 30)], procs=16, chunk=1, recycle=10) for x in ch]
+    out = []
+    for g, marks in zip(grammars, res):
+        g2 = copy.deepcopy(g)
+        for r in g2['rules']:
+            if r['name'] in marks:
+                r['lrec'], r['memo'] = marks[r['name']]
+        out.append(g2)
+    return out
+
+
+def run_machine(jobs: Jobs, timeout=3000, cfgname='PegMachineMC'):
+    """Model-check PegMachine on a job file -> (TlcResult, {job: {text index: machine outcome record}})"""
+    d = tlc.scratch_dir('mach')
+    try:
+        path = os.path.join(d, 'cases.json')
+        jobs.dump(path)
+        print(f'[machine] {len(jobs.jobs)} jobs, {jobs.ncases()} cases, json {os.path.getsize(path)} bytes', flush=True)
+        r = tlc.run_tlc('PegMachineMC', cfg=cfgname, env={'VERIF_CASES': path}, timeout=timeout)
+    finally:
+        shutil.rmtree(d, ignore_errors=True)
+    out = {}
+    for key, v in r.res.items():
+        j, t = key.split('.')
+        out.setdefault(int(j), {})[int(t)] = v
+    return r, out
+
+
+def machine_vs_impl(mrec, impl_plain):
+    """The machine is an exact transcription: its outcome (value included, on every shape) must be the implementation's."""
+    def ren(x):
+        if isinstance(x, dict):
+            return {('@' if k == '__vallue__' else k): ren(v) for k, v in x.items()}
+        if isinstance(x, list):
+            return [ren(v) for v in x]
+        return x
+    m = mrec['r']
+    if (m['k'] == 'ok') != (impl_plain.get('k') == 'ok'):
+        return f"machine {m['k']}, implementation {impl_plain.get('k')}:{impl_plain.get('cls')}"
+    if m['k'] == 'ok' and unval(m['v']) != ren(impl_plain['v']):
+        return f"machine value {unval(m['v'])!r}, implementation {ren(impl_plain['v'])!r}"
+    return None
